@@ -2,7 +2,7 @@
 """Evaluate a behaviour-preserving refactoring written by a sub-agent: apply the patch to a scratch export of /repo HEAD,
 run the test suite, run all 20 checks; anything other than exit 0 that is not a re-keyed open finding is a false alarm.
 
-usage: tools/benign_eval.py <patch.diff> [name] [--keep]
+usage: tools/benign_eval.py <patch.diff> [name] [--keep] [--scratch <dir to leave the patched copy in>]
 """
 import json, os, re, shutil, subprocess, sys, tempfile
 V = os.path.dirname(os.path.dirname(os.path.abspath(__file__)))
@@ -56,10 +56,15 @@ def evaluate(patch, name=None, keep=False):
         if keep and name:
             dst = os.path.join(V, 'seeded_benign', name)
             os.makedirs(dst, exist_ok=True)
-            shutil.copy(patch, os.path.join(dst, 'patch.diff'))
+            if os.path.abspath(patch) != os.path.join(dst, 'patch.diff'):
+                shutil.copy(patch, os.path.join(dst, 'patch.diff'))
             note = os.path.join(os.path.dirname(patch), 'note.txt')
             json.dump({'note': open(note).read().strip() if os.path.exists(note) else '', 'suite_with_patch': res['tests'],
                        'false_alarms': problems}, open(os.path.join(dst, 'meta.json'), 'w'), indent=1)
+        if '--scratch' in sys.argv:
+            sc = sys.argv[sys.argv.index('--scratch') + 1]
+            shutil.rmtree(sc, ignore_errors=True)
+            shutil.copytree(d, sc)
         return res
     finally:
         shutil.rmtree(tmp, ignore_errors=True)
